@@ -201,9 +201,12 @@ def build(kind, seed, calc="auto", logfile=None, size=1):
     elif kind in ("isob", "isot"):
         cls = E["Isobaric"] if kind == "isob" else E["Isotension"]
         op = E["IsotropicDeformation"](0.03) if kind == "isob" else E["AnisotropicDeformation"](0.02)
-        mc = cls(a, temperature=1500.0, pressure=0.0, max_cycles=2,
+        # a non-zero pressure (and, for the isotension driver, a stress with shear): the two ensembles then judge the
+        # same cell trial differently, so a criteria object of the wrong kind shows in the trajectory
+        extra = {} if kind == "isob" else {"external_stress": np.array([[0.02, 0.004, 0.0], [0.004, 0.01, 0.0], [0.0, 0.0, 0.015]])}
+        mc = cls(a, temperature=1500.0, pressure=0.2, max_cycles=2,
                  default_displacement_move=E["DisplacementMove"](np.arange(n), E["Ball"](0.1)),
-                 default_cell_move=E["CellMove"](op), **kw)
+                 default_cell_move=E["CellMove"](op), **extra, **kw)
         mc.moves["default_cell_move"].probability = 0.5
         mc.moves["default_displacement_move"].probability = 0.5
     elif kind == "gc":
@@ -238,7 +241,7 @@ def dg(*arrays) -> str:
 
 
 def rng_state_str(mc) -> str:
-    st = mc._rng.bit_generator.state
+    st = common.get_rng(mc).bit_generator.state
     return f"{st['bit_generator']}:{st['state']['state']}:{st['state']['inc']}:{st['has_uint32']}:{st['uinteger']}"
 
 
@@ -280,14 +283,26 @@ def one_run(kind, seed, steps, gseed=None, pseed=None, orig=None, wrap_rng=False
         orig["np.seed"](gseed[0])
         orig["py.seed"](gseed[1])
     log = io.StringIO()
+    if gseed is not None:
+        # other simulations live in the same process: one object of every OTHER driver class is built (and takes a step)
+        # before this one; nothing they do may reach it (class-level dictionaries, module-level caches, shared defaults)
+        for other in KINDS:
+            if other != kind:
+                try:
+                    o = build(other, (seed + 1) % 2**63, calc=calc, logfile=io.StringIO(), size=1)
+                    o.run(1)
+                except Exception:  # noqa: BLE001  (a decoy that cannot be built says nothing about this run)
+                    pass
+        orig["np.seed"](gseed[0])
+        orig["py.seed"](gseed[1])
     mc = build(kind, seed, calc=calc, logfile=log, size=size)
     if preuse:
         preuse_components(kind, mc, seed, calc, size)
     reclog = None
     if wrap_rng:
-        rec = RecordingRNG(mc._rng)
+        rec = RecordingRNG(common.get_rng(mc))
         reclog = rec.log
-        mc._rng = rec
+        common.set_rng(mc, rec)
         if hasattr(mc, "context"):
             mc.context.rng = rec
     pert = None
@@ -311,7 +326,7 @@ def one_run(kind, seed, steps, gseed=None, pseed=None, orig=None, wrap_rng=False
             obs["accept"].append(common.fbits(float(mc.acceptance_rate)))
     obs["log"] = log.getvalue()
     obs["step_count"] = int(mc.step_count)
-    obs["seed"] = int(mc._seed)
+    obs["seed"] = int(common.get_seed(mc))
     obs["rng_state"] = rng_state_str(mc)
     obs["final"] = dg(at.get_positions(), at.cell.array, at.numbers, at.get_momenta())
     if hasattr(mc, "moves"):
@@ -572,11 +587,11 @@ class SeedKept(common.Suite):
         qd.PCG64 = stub
         try:
             mc = self.construct(case["cls"], case["seed"])
-            out["seed"] = int(mc._seed)
-            out["is_int"] = isinstance(mc._seed, int) and not isinstance(mc._seed, bool)
+            out["seed"] = int(common.get_seed(mc))
+            out["is_int"] = isinstance(common.get_seed(mc), int) and not isinstance(common.get_seed(mc), bool)
             want = real_pcg(case["seed"] if case["seed"] is not None else SENTINEL).state
-            out["generator_seeded_by_kept_seed"] = mc._rng.bit_generator.state == real_pcg(mc._seed).state
-            out["generator_seeded_by_given_seed"] = mc._rng.bit_generator.state == want
+            out["generator_seeded_by_kept_seed"] = common.get_rng(mc).bit_generator.state == real_pcg(common.get_seed(mc)).state
+            out["generator_seeded_by_given_seed"] = common.get_rng(mc).bit_generator.state == want
             d = mc.to_dict()
             out["saved_seed"] = int(d["kwargs"]["seed"])
             if hasattr(type(mc), "from_dict"):
@@ -584,14 +599,14 @@ class SeedKept(common.Suite):
                 qd.PCG64 = lambda seed=None: (type("F2", (), {"random_raw": lambda self: SENTINEL + 1})()
                                               if seed is None else real_pcg(seed))
                 mc2 = type(mc).from_dict(d)
-                out["restored_seed"] = int(mc2._seed)
-                out["restored_state_equal"] = mc2._rng.bit_generator.state == mc._rng.bit_generator.state
+                out["restored_seed"] = int(common.get_seed(mc2))
+                out["restored_state_equal"] = common.get_rng(mc2).bit_generator.state == common.get_rng(mc).bit_generator.state
         finally:
             qd.PCG64 = real_pcg
         # a genuinely fresh seed (no stub): only "an int >= 0"
         if case["seed"] is None:
             m3 = self.construct(case["cls"], None)
-            out["fresh_ok"] = isinstance(m3._seed, int) and m3._seed >= 0
+            out["fresh_ok"] = isinstance(common.get_seed(m3), int) and common.get_seed(m3) >= 0
         return out
 
     def model_lines(self, case):
@@ -864,7 +879,7 @@ class RunModel(common.Suite):
         sim = machine.Sim(case)
         rng_ = RunRNG()
         sim.rng = rng_
-        sim.mc._rng = rng_
+        common.set_rng(sim.mc, rng_)
         sim.mc.context.rng = rng_
         del sim.mc.yield_moves  # the real scheduler again
         sim.mc.moves.pop("_tracker", None)  # machine.py's notification probe is not part of the modelled table
@@ -1029,5 +1044,60 @@ def extra_coverage(res):
                             "empirical check only (seed-ignored:<kind>)"}
 
 
+def _fresh_job(args):
+    """runs in a NEW interpreter (spawn): optionally build and step one simulation of every other kind first, then the run"""
+    kind, seed, steps, decoys = args
+    import io as _io
+
+    if decoys:
+        for other in KINDS:
+            if other != kind:
+                o = build(other, (seed + 1) % 2**63, logfile=_io.StringIO())
+                o.run(1)
+    r = one_run(kind, seed, steps)
+    return {k: r.get(k) for k in OBSERVABLES}
+
+
+class FreshProcess(common.Suite):
+    """several simulations in one process: a run in a pristine interpreter against the same run in an interpreter where
+    one simulation of every other driver class was built and stepped first (class-level dictionaries mutated by another
+    class's constructor, module-level caches, shared default objects). Oracle only."""
+
+    name = "fresh-process"
+
+    def cases(self, rng, tier):
+        self._results = None
+        self._cases = [{"kind": k, "seed": rng.randrange(2**63), "steps": 8 if tier == "quick" else 30} for k in KINDS]
+        return list(self._cases)
+
+    def _compute(self):
+        import multiprocessing as mp
+        from concurrent.futures import ProcessPoolExecutor
+
+        jobs = [(c["kind"], c["seed"], c["steps"], d) for c in self._cases for d in (False, True)]
+        with ProcessPoolExecutor(max_workers=min(8, len(jobs)), mp_context=mp.get_context("spawn")) as ex:
+            res = list(ex.map(_fresh_job, jobs))
+        self._results = {(j[0], j[3]): r for j, r in zip(jobs, res)}
+
+    def real(self, case):
+        if self._results is None:
+            self._compute()
+        a, b = self._results[(case["kind"], False)], self._results[(case["kind"], True)]
+        diff = [k for k in OBSERVABLES if a.get(k) != b.get(k)]
+        return {"differs": diff, "steps": case["steps"], "history": a.get("history")}
+
+    def oracle(self, case, obs):
+        if "exception" in obs:
+            return [(f"fresh-process:{case['kind']}:exception:{obs['exception']}", obs.get("message", ""))]
+        if obs["differs"]:
+            return [(f"fresh-process:{case['kind']}:other-simulations-change-the-trajectory",
+                     f"seed {case['seed']}: {obs['differs']} differ between a pristine interpreter and one in which "
+                     f"simulations of the other driver classes were built first")]
+        return []
+
+    def classify(self, case, obs):
+        return case["kind"]
+
+
 def suites(tier):
-    return [SeedKept(), DoubleRun(), StreamIsolation(), RunModel(), StaticScan()]
+    return [SeedKept(), DoubleRun(), StreamIsolation(), RunModel(), StaticScan(), FreshProcess()]
